@@ -370,6 +370,35 @@ Proof.
 Qed.
 
 (* ---------- Enforce ---------- *)
+(* the set-frontier search of the executable model = Roles.bfs (HasLink of C05) *)
+Lemma bfs_frontier_set ls d fuel t : forall f1 f2, (forall x, In x f1 <-> In x f2) ->
+  bfs ls d fuel t f1 = bfs ls d fuel t f2.
+Proof.
+  induction fuel as [|f IH]; intros f1 f2 E; cbn [bfs]; [reflexivity|].
+  assert (M : mem_str t f1 = mem_str t f2).
+  { destruct (mem_str t f1) eqn:M1; symmetry.
+    - apply mem_str_In. apply E. apply mem_str_In. exact M1.
+    - apply not_true_iff_false. intros M2. apply mem_str_In in M2. apply E in M2. apply mem_str_In in M2. congruence. }
+  assert (N : forall a b : list string, (forall x, In x a <-> In x b) -> a = [] -> b = []).
+  { intros a b Eab ->. destruct b as [|y b]; [reflexivity|]. exfalso. apply (proj2 (Eab y)). left. reflexivity. }
+  destruct f1 as [|a1 f1'] eqn:F1.
+  - rewrite (N [] f2 E eq_refl). reflexivity.
+  - destruct f2 as [|a2 f2'] eqn:F2.
+    + exfalso. apply (proj1 (E a1)). left. reflexivity.
+    + rewrite M. destruct (mem_str t (a2 :: f2')); [reflexivity|]. apply IH.
+      intros x. rewrite !in_flat_map. split; intros [y [Hy Hs]]; exists y; (split; [apply E; exact Hy|exact Hs]).
+Qed.
+
+Lemma bfs_set_eq ls d fuel t : forall fr, bfs_set ls d fuel t fr = bfs ls d fuel t fr.
+Proof.
+  induction fuel as [|f IH]; intros fr; cbn [bfs_set bfs]; [reflexivity|].
+  destruct fr as [|a fr']; [reflexivity|]. destruct (mem_str t (a :: fr')); [reflexivity|].
+  rewrite IH. apply bfs_frontier_set. intros x. apply dedup_In.
+Qed.
+
+Theorem g_link_eq ls u r d : g_link ls u r d = has_link ls u r d.
+Proof. unfold g_link, has_link, has_link_n. rewrite bfs_set_eq. reflexivity. Qed.
+
 Lemma existsb_allow_map (f : rule -> bool) policy :
   existsb (matched_with Allow) (map (fun rule => (f rule, Allow)) policy) = existsb f policy.
 Proof.
@@ -446,14 +475,14 @@ Proof.
   - cbn [enforce_spec]. rewrite existsb_exists. split.
     + intros [x [Hx M]]. cbn [match_rbac] in M.
       destruct x as [|ps [|po [|pa [|? ?]]]]; try discriminate.
-      apply andb_true_iff in M as [M Ea]. apply andb_true_iff in M as [G Eo].
+      apply andb_true_iff in M as [M Ea]. apply andb_true_iff in M as [G Eo]. rewrite g_link_eq in G.
       apply String.eqb_eq in Ea, Eo. subst po pa.
       exists [ps; o; a]. split.
       * apply implicit_permissions_In. split; [exact Hx|]. apply policy_roles_superset. exact G.
       * apply grants_inv. exists ps. reflexivity.
     + intros [p [Hp G]]. apply grants_inv in G as [ps ->]. apply implicit_permissions_In in Hp as [Hp R].
       exists [ps; o; a]. split; [exact Hp|]. cbn [match_rbac]. cbn [rule_sub hd] in R.
-      rewrite (policy_roles_sound _ _ _ _ D R), !String.eqb_refl. reflexivity.
+      rewrite g_link_eq, (policy_roles_sound _ _ _ _ D R), !String.eqb_refl. reflexivity.
 Qed.
 
 Theorem permissions_decide_dom ls policy u d o a :
@@ -467,7 +496,7 @@ Proof.
   - cbn [enforce_spec]. rewrite existsb_exists. split.
     + intros [x [Hx M]]. cbn [match_rbac] in M.
       destruct x as [|ps [|pd [|po [|pa [|? ?]]]]]; try discriminate.
-      apply andb_true_iff in M as [M Ea]. apply andb_true_iff in M as [M Eo]. apply andb_true_iff in M as [G Ed].
+      apply andb_true_iff in M as [M Ea]. apply andb_true_iff in M as [M Eo]. apply andb_true_iff in M as [G Ed]. rewrite g_link_eq in G.
       apply String.eqb_eq in Ea, Eo, Ed. subst pd po pa.
       exists [ps; d; o; a]. split.
       * apply implicit_permissions_dom_In. split; [exact Hx|]. split; [reflexivity|].
@@ -475,7 +504,7 @@ Proof.
       * apply grants_inv. exists ps. reflexivity.
     + intros [p [Hp G]]. apply grants_inv in G as [ps ->]. apply implicit_permissions_dom_In in Hp as [Hp [_ R]].
       exists [ps; d; o; a]. split; [exact Hp|]. cbn [match_rbac]. cbn [rule_sub hd] in R.
-      rewrite (policy_roles_sound _ _ _ _ D R), !String.eqb_refl. reflexivity.
+      rewrite g_link_eq, (policy_roles_sound _ _ _ _ D R), !String.eqb_refl. reflexivity.
 Qed.
 
 (* without the depth guard: the listing is never too small (every allowed request is granted by
@@ -489,7 +518,7 @@ Proof.
   - cbn [enforce_spec vacuous_grant] in *. rewrite V. discriminate.
   - cbn [enforce_spec]. rewrite existsb_exists. intros [x [Hx M]]. cbn [match_rbac] in M.
     destruct x as [|ps [|po [|pa [|? ?]]]]; try discriminate.
-    apply andb_true_iff in M as [M Ea]. apply andb_true_iff in M as [G Eo].
+    apply andb_true_iff in M as [M Ea]. apply andb_true_iff in M as [G Eo]. rewrite g_link_eq in G.
     apply String.eqb_eq in Ea, Eo. subst po pa.
     exists [ps; o; a]. split.
     + apply implicit_permissions_In. split; [exact Hx|]. apply policy_roles_superset. exact G.
